@@ -128,6 +128,109 @@ def fixed_len(co) -> Optional[int]:
     return need[0]
 
 
+def required_len(co, pdu: bytes) -> Optional[int]:
+    """Own reference walk over a coding object and a concrete PDU: the number of bytes the PDU must have
+    so that every parameter it *announces* is present (fixed-width parameters, structures, static fields,
+    and dynamic-length fields whose item count is read from the PDU).  None if the layout contains
+    anything else.  Independent of the library's decoder."""
+    from odxtools.dataobjectproperty import DataObjectProperty
+    from odxtools.dtcdop import DtcDop
+    from odxtools.dynamiclengthfield import DynamicLengthField
+    from odxtools.odxtypes import DataType
+    from odxtools.parameters.codedconstparameter import CodedConstParameter
+    from odxtools.parameters.matchingrequestparameter import MatchingRequestParameter
+    from odxtools.parameters.nrcconstparameter import NrcConstParameter
+    from odxtools.parameters.physicalconstantparameter import PhysicalConstantParameter
+    from odxtools.parameters.reservedparameter import ReservedParameter
+    from odxtools.parameters.valueparameter import ValueParameter
+    from odxtools.standardlengthtype import StandardLengthType
+    from odxtools.staticfield import StaticField
+    from odxtools.structure import Structure
+
+    class Unknown(Exception):
+        pass
+
+    need = [0]
+
+    def struct_extent(st, pos: int) -> int:
+        """returns the cursor after the structure; updates need[0]"""
+        end = walk(st.parameters, pos)
+        if st.byte_size is not None:
+            if end - pos > st.byte_size:
+                raise Unknown()
+            return pos + st.byte_size
+        return end
+
+    def walk(params, origin: int) -> int:
+        cursor = origin
+        end = origin
+        for p in params:
+            pos = cursor if p.byte_position is None else origin + p.byte_position
+            bitpos = p.bit_position or 0
+            if isinstance(p, (CodedConstParameter, NrcConstParameter)):
+                dct = p.diag_coded_type
+                if not isinstance(dct, StandardLengthType):
+                    raise Unknown()
+                cursor = pos + (dct.bit_length + bitpos + 7) // 8
+                need[0] = max(need[0], cursor)
+            elif isinstance(p, ReservedParameter):
+                cursor = pos + (p.bit_length + bitpos + 7) // 8
+                need[0] = max(need[0], cursor)
+            elif isinstance(p, MatchingRequestParameter):
+                cursor = pos + p.byte_length
+                need[0] = max(need[0], cursor)
+            elif isinstance(p, (ValueParameter, PhysicalConstantParameter)):
+                dop = p.dop
+                if isinstance(dop, (DataObjectProperty, DtcDop)):
+                    dct = dop.diag_coded_type
+                    if not isinstance(dct, StandardLengthType):
+                        raise Unknown()
+                    cursor = pos + (dct.bit_length + bitpos + 7) // 8
+                    need[0] = max(need[0], cursor)
+                elif isinstance(dop, Structure):
+                    cursor = struct_extent(dop, pos)
+                elif isinstance(dop, StaticField):
+                    c = pos
+                    for _ in range(dop.fixed_number_of_items):
+                        struct_extent(dop.structure, c)
+                        c += dop.item_byte_size
+                    cursor = c
+                elif isinstance(dop, DynamicLengthField):
+                    dn = dop.determine_number_of_items
+                    cdct = dn.dop.diag_coded_type
+                    if not (isinstance(cdct, StandardLengthType) and cdct.base_data_type == DataType.A_UINT32
+                            and cdct.bit_length in (8, 16) and not dn.bit_position and cdct.bit_mask is None
+                            and cdct.base_type_encoding is None and cdct.is_highlow_byte_order_raw in (None, True)
+                            and type(dn.dop).__name__ == "DataObjectProperty"
+                            and type(dn.dop.compu_method).__name__ == "IdenticalCompuMethod"):
+                        raise Unknown()
+                    cpos = pos + dn.byte_position
+                    cbytes = cdct.bit_length // 8
+                    need[0] = max(need[0], cpos + cbytes)
+                    if len(pdu) < cpos + cbytes:
+                        # the count itself is missing: everything up to it is needed, nothing more is known
+                        return max(end, cpos + cbytes)
+                    n = int.from_bytes(pdu[cpos:cpos + cbytes], "big")
+                    c = pos + dop.offset
+                    for _ in range(n):
+                        c = struct_extent(dop.structure, c)
+                        if c > 70000:
+                            break
+                    cursor = c
+                else:
+                    raise Unknown()
+            else:
+                raise Unknown()
+            end = max(end, cursor)
+        return end
+
+    try:
+        walk(co.parameters, 0)
+    except Unknown:
+        return None
+    return need[0]
+
+
 # ------------------------------------------------------------------ worker state
 def worker_init() -> None:
     import odxtools
@@ -487,12 +590,17 @@ def execute_pdu(trace: Dict[str, Any], log: EventLog) -> Dict[str, Any]:
                 n_ok += 1
                 log.ev(entry, "ok", {"pdu": pdu_hex, "t": target})
                 states.add(h64(lname, entry, "ok"))
-                if entry == "C" and kind == "prefix":
-                    L = fixed.get(target[1])
+                if entry == "C":
+                    # truncation clause: a PDU shorter than what it announces must not be completed
+                    svc_, co_ = find_objects(layer, target[0], target[1])
+                    try:
+                        L = required_len(co_, bytes.fromhex(pdu_hex)) if co_ is not None else None
+                    except Exception:  # noqa: BLE001 - the reference walk gives up
+                        L = None
                     if L is not None and len(pdu_hex) // 2 < L:
                         violations.append({
                             "oracle": "C05.truncation-rejected", "sig": {"what": "short-pdu-completed"},
-                            "detail": {"layer": lname, "coding_object": target[1], "fixed_len": L,
+                            "detail": {"layer": lname, "coding_object": target[1], "required_len": L, "mutation": kind,
                                        "pdu": pdu_hex, "len": len(pdu_hex) // 2}})
             elif outcome == "decode-error":
                 n_de += 1
@@ -578,8 +686,11 @@ def execute_conv(trace: Dict[str, Any], log: EventLog) -> Dict[str, Any]:
                                                       "last_request": None, "msg": str(e)[:200]}})
                         log.ev("snoop", "decode-exc", sig)
                     else:
-                        probes["snoop_printing_exception_not_gated"] = probes.get(
-                            "snoop_printing_exception_not_gated", 0) + 1
+                        # not raised inside a decode call, but the session dies all the same: what the
+                        # bus delivers (in whatever order) must not abort the snooper
+                        violations.append({"oracle": "C05.snoop-survives", "sig": {**sig, "origin": "handler"},
+                                           "detail": {"layer": lname, "telegram_id": tid, "pdu": payload.hex(),
+                                                      "msg": str(e)[:200]}})
                         log.ev("snoop", "other-exc", sig)
                 finally:
                     budget.disarm()
